@@ -13,6 +13,21 @@ def replay(ob):
     import odl
     import numpy as np
     from odl.operator import default_ops as D
+    if str(ob.get('unit', '')).startswith('expr-mixed/'):
+        rng = np.random.default_rng(7)
+        X = odl.rn(3, weighting=0.7)
+        A = D.ComplexEmbedding(X, scalar=complex(0.6, -0.8))
+        Y = A.range
+        A = odl.operator.operator.OperatorComp(D.ScalingOperator(Y, complex(0.3, 1.1)), A) if False else A
+        left = 'Left' in str(ob.get('unit'))
+        vec = Y.element(rng.standard_normal(3) + 1j * rng.standard_normal(3)) if left else X.element(rng.standard_normal(3))
+        from odl.operator.operator import OperatorLeftVectorMult, OperatorRightVectorMult
+        op = OperatorLeftVectorMult(A, vec) if left else OperatorRightVectorMult(A, vec)
+        x, y = X.element(rng.standard_normal(3)), Y.element(rng.standard_normal(3) + 1j * rng.standard_normal(3))
+        l, r = complex(Y.inner(op(x), y)).real, float(X.inner(x, op.adjoint(y)))
+        bad = abs(l - r) > 1e-9 * (1 + abs(l))
+        return {'reproduced': bool(bad), 'detail': 'Re<Ax,y> = %r, <x,A*y> = %r for %r' % (l, r, op) if bad else 'mixed real/complex adjoint identity holds natively',
+                'input': {'class': cls, 'space': 'rn(3) -> cn(3)'}}
     if not hasattr(D, str(cls)):
         return {'reproduced': False, 'detail': 'no native concretisation for this obligation kind'}
     rng = np.random.default_rng(5)
